@@ -504,3 +504,25 @@ func c06CtorElems(sums *Summaries, fn *ssa.Function, f *types.Var, depth int) (e
 	}
 	return &Term{Op: "phi", Args: alts}, ""
 }
+
+// c06ThroughCells (fifth round): the value v denotes, read through write-once local cells. A local that a function
+// literal captures (e.g. the `traits` parameter of a helper whose body - including a local closure that reads
+// `traits` - was inlined into the flat view) lives in an Alloc; every read of it is a load of that cell. When the
+// cell is stored to exactly once, that store dominates the load, and neither the enclosing function nor any literal
+// that captures the cell does anything with it but load it (c04CellValue proves exactly this), the load yields the
+// stored value, so the load and the stored value are the same run-time value. Anything else is returned unchanged
+// (after stripping value-preserving conversions), i.e. the identity comparison of the caller stays as strict as before.
+func c06ThroughCells(v ssa.Value) ssa.Value {
+	for i := 0; i < 8 && v != nil; i++ {
+		v = stripPtr(v)
+		inner, ok := c04CellValue(v)
+		if !ok {
+			return v
+		}
+		v = inner
+	}
+	if v == nil {
+		return nil
+	}
+	return stripPtr(v)
+}
